@@ -295,6 +295,10 @@ func c15Hook(t *fw.T) {
 	c15HookRun(t, k, name, ctor, data)
 }
 
+// staleErrorMatters: entry points that build a new Error for every error they report (the css parser's Err()); the
+// lexers and the JSON parser keep reporting their first error, which is their documented behaviour.
+func staleErrorMatters(entry string) bool { return strings.HasPrefix(entry, "css.parser") }
+
 // c15HookRun drives entry point k (len(entryPoints) = js.Parse) over data with H1 installed.
 func c15HookRun(t *fw.T, k int, name, ctor string, data []byte) (checked int) {
 	r := t.Rng
@@ -325,6 +329,7 @@ func c15HookRun(t *fw.T, k int, name, ctor string, data []byte) (checked int) {
 		sticky := 0
 		for calls := 0; calls < 4*len(data)+64 && sticky < 3; calls++ {
 			before := in.Offset()
+			nrecs := len(recs)
 			var isErr bool
 			var err error
 			if p := fw.Guard(func() {
@@ -343,6 +348,12 @@ func c15HookRun(t *fw.T, k int, name, ctor string, data []byte) (checked int) {
 			}
 			if in.Offset() == before {
 				sticky++
+			}
+			if e, ok := err.(*parse.Error); ok && e == last && in.Offset() > before && len(recs) == nrecs && staleErrorMatters(name) {
+				// the parser moved on and reports an error again, but no Error was built for it: the one it hands out
+				// still carries the position of the earlier error
+				t.Failf("%s: after advancing from offset %d to %d the call reports the *parse.Error of an earlier position again (%q, line %d column %d) instead of building one for the new position", name, before, in.Offset(), e.Message, e.Line, e.Column)
+				return -1
 			}
 			if e, ok := err.(*parse.Error); ok && e != last {
 				last = e
